@@ -82,4 +82,4 @@ def t4_conds(mode, timeout=300, quick=False):
 
 T4_BOUND = ("5 valid corpus scripts using every supported command, tag, match type, list / multi-line form, nesting, "
             "elsif/else, anyof/allof/not; unedited and with every single edit (delete / duplicate / swap-with-next / "
-            "replace by one of 12 tokens at every position) x LF/CRLF x comment placement (quick tier: LF, no comment)")
+            "replace by one of 12 tokens at every position) x LF/CRLF x comment placement (quick tier: LF, no comment) x require written as one list / one command per extension / two lists")
